@@ -372,7 +372,7 @@ func resolveGotos(gotos []*Cmd, labels []string) {
 	}
 }
 
-var psKeys = []string{"A", "B", "1", "_"}
+var psKeys = []string{"A", "B", "1", "_", "0x2"}
 
 // psStmt draws a statement poryswitch. Cases in colon form hold exactly one statement.
 func (g *genCtx) psStmt(depth int, inLoop, inBrk bool) *PSStmt {
